@@ -8,7 +8,6 @@ import (
 	"sort"
 
 	"github.com/unixpickle/model3d/model3d"
-	"verif/vlib"
 	ref "verif/vlib/c07ref"
 )
 
@@ -45,6 +44,9 @@ type subject3 struct {
 	far    float64 // largest origin distance in multiples of the size
 	vn     map[V3]V3
 	mesh   *ref.Mesh // set for triangle colliders (interp normals, multi queries)
+	// special directions of the shape (its axis, a generator line of a cone):
+	// rays exactly along them reach the degenerate branches of the closed forms.
+	axes []V3
 	// approxEps > 0 marks an epsilon-marching SolidCollider.
 	approxEps float64
 	// innerExtra: RayCollision.Extra describes the wrapped collider's own
@@ -163,7 +165,7 @@ func describeRef(hits []ref.Hit) []string {
 }
 
 // checkRay3 checks every ray clause of the property for one ray.
-func checkRay3(c *vlib.Case, s *subject3, o, d V3) {
+func checkRay3(c *kase, s *subject3, o, d V3) {
 	size := s.ref.Size()
 	ray := &model3d.Ray{Origin: o.C3(), Direction: d.C3()}
 	var got []model3d.RayCollision
@@ -175,17 +177,17 @@ func checkRay3(c *vlib.Case, s *subject3, o, d V3) {
 		return s.witness(o, d, map[string]interface{}{"returned": n1, "callbacks": describeHits(got)})
 	}
 	if n1 != len(got) {
-		c.Violationf(key("RayCollisions", "count-vs-callbacks"), base(), "returned %d but made %d callbacks", n1, len(got))
+		c.Violate(key("RayCollisions", "count-vs-callbacks"), base, "returned %d but made %d callbacks", n1, len(got))
 	}
 	n2, pan := countNil3(s.coll, ray)
 	if pan != nil {
 		s.nilPanics = true
-		c.Violationf(key("RayCollisions", "nil-callback-panic"), base(), "RayCollisions(r, nil) panicked: %v (with a callback it returned %d)", pan, n1)
+		c.Violate(key("RayCollisions", "nil-callback-panic"), base, "RayCollisions(r, nil) panicked: %v (with a callback it returned %d)", pan, n1)
 	} else if n2 != n1 && s.approxEps == 0 {
-		c.Violationf(key("RayCollisions", "count-nil-callback"), base(), "count with nil callback %d != count with callback %d", n2, n1)
+		c.Violate(key("RayCollisions", "count-nil-callback"), base, "count with nil callback %d != count with callback %d", n2, n1)
 	} else if n2 != n1 {
 		// SolidCollider is deterministic in its count too (normals are random, counts are not)
-		c.Violationf(key("RayCollisions", "count-nil-callback"), base(), "count with nil callback %d != count with callback %d", n2, n1)
+		c.Violate(key("RayCollisions", "count-nil-callback"), base, "count with nil callback %d != count with callback %d", n2, n1)
 	}
 
 	dn := d.Norm()
@@ -197,7 +199,7 @@ func checkRay3(c *vlib.Case, s *subject3, o, d V3) {
 	for _, g := range got {
 		c.Count("clause.scale_nonneg", 1)
 		if !(g.Scale >= 0) || !finite(g.Scale) {
-			c.Violationf(key("RayCollisions", "scale-nonneg"), base(), "collision with Scale=%g", g.Scale)
+			c.Violate(key("RayCollisions", "scale-nonneg"), base, "collision with Scale=%g", g.Scale)
 			continue
 		}
 		minScale = math.Min(minScale, g.Scale)
@@ -205,7 +207,7 @@ func checkRay3(c *vlib.Case, s *subject3, o, d V3) {
 		res := math.Abs(s.ref.SDF(p))
 		c.Count("clause.on_surface", 1)
 		c.Max("worst_on_surface_residual_rel."+s.api, res/size)
-		if !(res <= onTol+1e-12*p.Dist(s.ref.Center())) {
+		if !(res <= onTol+1e-12*p.Dist(s.ref.Center())) && !c.fired(key("RayCollisions", "on-surface")) {
 			w := base()
 			w["point"] = dec3(p)
 			w["reference_sdf"] = s.ref.SDF(p)
@@ -214,7 +216,7 @@ func checkRay3(c *vlib.Case, s *subject3, o, d V3) {
 		nn := ref.From3(g.Normal).Norm()
 		c.Count("clause.normal_unit", 1)
 		if !(math.Abs(nn-1) <= 1e-6) {
-			c.Violationf(key("RayCollisions", "normal-unit"), base(), "normal has length %g", nn)
+			c.Violate(key("RayCollisions", "normal-unit"), base, "normal has length %g", nn)
 		}
 	}
 
@@ -271,13 +273,13 @@ func checkRay3(c *vlib.Case, s *subject3, o, d V3) {
 		return w
 	}
 	if n1 != len(j.hits) {
-		c.Violationf(key("RayCollisions", "hit-count"), wref(), "reported %d collisions, the reference surface has %d (ray in general position)", n1, len(j.hits))
+		c.Violate(key("RayCollisions", "hit-count"), wref, "reported %d collisions, the reference surface has %d (ray in general position)", n1, len(j.hits))
 	}
 	if s.ref.Closed() {
 		c.Count("clause.parity", 1)
 		c.Count(s.api+".parity_decided", 1)
 		if (n1%2 == 1) != (j.sdfO > 0) {
-			c.Violationf(key("RayCollisions", "parity"), wref(), "count %d but the origin is inside=%v (reference sdf %g)", n1, j.sdfO > 0, j.sdfO)
+			c.Violate(key("RayCollisions", "parity"), wref, "count %d but the origin is inside=%v (reference sdf %g)", n1, j.sdfO > 0, j.sdfO)
 		}
 	}
 	if n1 != len(j.hits) || len(got) != n1 {
@@ -289,7 +291,7 @@ func checkRay3(c *vlib.Case, s *subject3, o, d V3) {
 		g := sorted[i]
 		tolT := tolOnSurface * size / h.Tang * 2
 		if !(math.Abs(g.Scale-h.T)*dn <= tolT) {
-			c.Violationf(key("RayCollisions", "hit-set"), wref(), "hit %d: Scale %g, reference %g (distance along ray %g)", i, g.Scale, h.T, math.Abs(g.Scale-h.T)*dn)
+			c.Violate(key("RayCollisions", "hit-set"), wref, "hit %d: Scale %g, reference %g (distance along ray %g)", i, g.Scale, h.T, math.Abs(g.Scale-h.T)*dn)
 			return
 		}
 		if h.Feat < featNormal*size {
@@ -315,7 +317,7 @@ func checkRay3(c *vlib.Case, s *subject3, o, d V3) {
 		c.Count(s.api+".normals_compared", 1)
 		gn := ref.From3(g.Normal)
 		c.Max("worst_normal_error."+s.api, gn.Dist(want))
-		if !(gn.Dist(want) <= tolNormal) {
+		if !(gn.Dist(want) <= tolNormal) && !c.fired(key("RayCollisions", "normal-outward")) {
 			w := wref()
 			w["expected_normal"] = dec3(want)
 			w["got_normal"] = dec3(gn)
@@ -326,7 +328,7 @@ func checkRay3(c *vlib.Case, s *subject3, o, d V3) {
 			c.Count("clause.barycentric", 1)
 			bp := ref.From3(tc.Triangle.AtBarycentric(tc.Barycentric))
 			if bp.Dist(h.P) > 1e-6*size {
-				c.Violationf(key("RayCollisions", "barycentric"), wref(), "TriangleCollision barycentric point %s is %g from the hit point", dec3(bp), bp.Dist(h.P))
+				c.Violate(key("RayCollisions", "barycentric"), wref, "TriangleCollision barycentric point %s is %g from the hit point", dec3(bp), bp.Dist(h.P))
 			}
 		}
 	}
@@ -335,7 +337,7 @@ func checkRay3(c *vlib.Case, s *subject3, o, d V3) {
 // ---------------------------------------------------------------------------
 // ball queries
 
-func checkBall3(c *vlib.Case, s *subject3, ctr V3, r float64) {
+func checkBall3(c *kase, s *subject3, ctr V3, r float64) {
 	size := s.ref.Size()
 	sd := s.ref.SDF(ctr)
 	c.Count(s.api+".balls", 1)
@@ -364,12 +366,17 @@ func checkBall3(c *vlib.Case, s *subject3, ctr V3, r float64) {
 
 var containsDir = V3{0.5224892708603626, 0.10494477243214506, 0.43558938446126527}
 
-func checkContains3(c *vlib.Case, s *subject3, p V3, m float64) {
+func checkContains3(c *kase, s *subject3, p V3, m float64) {
 	if !s.ref.Closed() {
 		return
 	}
 	if s.nilPanics {
 		c.Undecided("contains3:collider-panics-on-nil-callback")
+		return
+	}
+	if _, pan := countNil3(s.coll, &model3d.Ray{Origin: p.C3(), Direction: containsDir.C3()}); pan != nil {
+		s.nilPanics = true
+		c.Violationf(s.api+".RayCollisions/nil-callback-panic", s.witness(p, containsDir, nil), "RayCollisions(r, nil) panicked: %v", pan)
 		return
 	}
 	size := s.ref.Size()
@@ -548,6 +555,18 @@ func genRay3(rng *rand.Rand, s *subject3) (o, d V3) {
 		}
 		d = d.Unit()
 	}
+	if len(s.axes) > 0 && rng.Intn(10) == 0 {
+		d = s.axes[rng.Intn(len(s.axes))]
+		if rng.Intn(2) == 0 {
+			d = d.Scale(-1)
+		}
+		if rng.Intn(2) == 0 { // almost, but not exactly, along the special direction
+			d = d.Add(randUnit3(rng).Scale(d.Norm() * logUniform(rng, -12, -3)))
+		}
+		if rng.Intn(2) == 0 { // through the shape
+			o = ctr.Add(randUnit3(rng).Scale(size * 0.5 * rng.Float64())).Sub(d.Unit().Scale(size * 3 * rng.Float64()))
+		}
+	}
 	if rng.Intn(2) == 0 {
 		d = d.Scale(logUniform(rng, -3, 3))
 	}
@@ -622,7 +641,7 @@ func genPoint3(rng *rand.Rand, s *subject3) V3 {
 }
 
 // exercise3 runs the standard workload on one subject.
-func exercise3(c *vlib.Case, s *subject3, rays, balls, points int) {
+func exercise3(c *kase, s *subject3, rays, balls, points int) {
 	rng := c.Rng
 	for i := 0; i < rays; i++ {
 		o, d := genRay3(rng, s)
